@@ -10,6 +10,7 @@ import json
 import z3
 
 from mirsym.executor import State
+from mirsym import solve
 from mirsym.values import *
 from . import absgame as A
 from . import boardsym as B
@@ -78,11 +79,19 @@ def step(run, job):
         report(run, qq, name, 'panic reachable when the search is cut: %s %s' % (ob.where.split('::')[-1], ob.msg[:80]))
     # vacuity: some insert is reachable at all, and some nested abort is possible
     if ins and kind != 'Q':
-        qv = run.decide('%s/vacuity' % name, ex.pre + [z3.Or(*[zb(i['guard']) for i in ins])], kind='smt')
-        run.queries.pop()
-        run.vacuity.append({'case': name, 'insert_reachable': qv.verdict})
-        if qv.verdict != 'sat':
-            run.inconclusive.append('%s: no insert reachable (%s)' % (name, qv.verdict))
+        # vacuity witness: some cache write is reachable at all (one site at a time: cheap queries)
+        verdict = 'unknown'
+        # hints that only make the witness easier to find: nothing is cut, no limit is set
+        hints = [z3.Not(c['aborted']) for c in env.calls if 'aborted' in c] + [z3.Not(z3.Bool('lim_%s_some' % n_)) for n_ in ('depth', 'nodes', 'movetime', 'wtime', 'btime', 'winc', 'binc', 'timer')]
+        for i in ins:
+            qv = solve.Query('%s/vacuity' % name, ex.pre + hints + [zb(i['guard'])], 'smt', 'witness')
+            solve.decide(qv, 60, run.seed)
+            verdict = qv.verdict
+            if verdict == 'sat':
+                break
+        run.vacuity.append({'case': name, 'insert_reachable': verdict})
+        if verdict != 'sat':
+            run.inconclusive.append('%s: no insert reachable (%s)' % (name, verdict))
     if not run.samples:
         run.samples.append({'case': name, 'inserts': [i['where'].split('::')[-1] for i in ins], 'nested_calls': len(env.calls)})
 
